@@ -117,7 +117,7 @@ def run(m, chk):
         "no in-place KnotVector mutator applied to a shared knot vector, no in-place operation on stored control point objects. "
         "The value-level clause (the curve evaluates on its whole interval) is not decided."
     )
-    chk.decides = ["invariant funnel (who-may-write + guard dominance)", "COMMIT-LAST for Curve mutators", "PURE/FRESH for non-mutating operations", "shared KnotVector never mutated by curve code", "NO-INPLACE-ELEM"]
+    chk.decides = ["invariant funnel (who-may-write + guard dominance)", "COMMIT-LAST for Curve mutators", "PURE/FRESH for non-mutating operations", "shared KnotVector never mutated by curve code", "NO-INPLACE-ELEM", 'PRECHECK']
     chk.not_decided = ["the curve evaluates on its whole interval", "len(ctrlpoints)=npts as a value-level fact beyond the guarded setter"]
     chk.assume("a setter's validation of an already computed value of the right length is not modelled as a failure point")
     chk.assume("numpy functions and user supplied callables do not modify their arguments; copy() of a user point yields an independent object")
